@@ -500,6 +500,162 @@ def w_split16(task):
     return part
 
 
+# ------------------------------------------------------------------ other routes to the same functions
+# The bulk above calls the building blocks on arrays through a NumpyContext (the constants are then picked directly from
+# the context's dtype).  Two more routes reach the same code through different branches: (a) traced with a Context,
+# rewritten for NumPy and exec'd -- constants for all three float types + select on `largest` (what the algorithms that
+# use these blocks get); (b) NumPy scalars through a NumpyContext.  Both are compared bit for bit with the array route
+# (which the oracle judges) on the same points.  (c) one NumpyContext shared by several float types in sequence.
+
+ROUTE_VARIANTS = {
+    "fpa.add_2sum": (2, lambda fpa, ap: (lambda ctx, x, y: fpa.add_2sum(ctx, x, y))),
+    "fpa.add_2sum[fast]": (2, lambda fpa, ap: (lambda ctx, x, y: fpa.add_2sum(ctx, x, y, fast=True))),
+    "fpa.add_2sum[fix_overflow]": (2, lambda fpa, ap: (lambda ctx, x, y: fpa.add_2sum(ctx, x, y, fix_overflow=True))),
+    "fpa.split_veltkamp": (1, lambda fpa, ap: (lambda ctx, x: fpa.split_veltkamp(ctx, x))),
+    "fpa.split_veltkamp[scale]": (1, lambda fpa, ap: (lambda ctx, x: fpa.split_veltkamp(ctx, x, scale=True))),
+    "fpa.mul_dekker": (2, lambda fpa, ap: (lambda ctx, x, y: fpa.mul_dekker(ctx, x, y))),
+    "fpa.mul_dekker[noscale]": (2, lambda fpa, ap: (lambda ctx, x, y: fpa.mul_dekker(ctx, x, y, scale=False))),
+    "fpa.mul_dekker[fix_overflow]": (2, lambda fpa, ap: (lambda ctx, x, y: fpa.mul_dekker(ctx, x, y, fix_overflow=True))),
+    "apmath.two_sum": (2, lambda fpa, ap: (lambda ctx, x, y: ap.two_sum(ctx, x, y))),
+    "apmath.two_prod": (2, lambda fpa, ap: (lambda ctx, x, y: ap.two_prod(ctx, x, y))),
+    "apmath.split": (1, lambda fpa, ap: (lambda ctx, x: ap.split(ctx, x))),
+    "fpa.split_tripleword": (1, lambda fpa, ap: (lambda ctx, x: fpa.split_tripleword(ctx, x))),
+}
+_TRACED = {}
+
+
+def traced_variant(fa, name, dtname):
+    key = (name, dtname)
+    if key not in _TRACED:
+        from mc.harness import quiet
+        import functional_algorithms.apmath_algorithms as apa
+
+        nargs, mk = ROUTE_VARIANTS[name]
+        body = mk(fa.floating_point_algorithms, fa.apmath)
+        if nargs == 1:
+
+            def f(ctx, x):
+                return body(ctx, x)
+
+        else:
+
+            def f(ctx, x, y):
+                return body(ctx, x, y)
+
+        try:
+            with quiet():
+                ctx = fa.Context(paths=[apa])
+                g = ctx.trace(f, *([DT[dtname]] * nargs))
+                g = g.rewrite(fa.targets.numpy, fa.rewrite, fa.rewrite)
+                _TRACED[key] = fa.targets.numpy.as_function(g, debug=0, force_cast_arguments=False)
+        except Exception as e:
+            _TRACED[key] = e
+    return _TRACED[key]
+
+
+def same_arrays(a, b):
+    a, b = np.asarray(a), np.asarray(b)
+    if a.shape != b.shape:
+        a, b = np.broadcast_arrays(a, b)
+    return a.dtype == b.dtype and bool(np.all((a.view(FMT[a.dtype.name]["ui"]) == b.view(FMT[b.dtype.name]["ui"])) | (np.isnan(a) & np.isnan(b))))
+
+
+def w_routes(task):
+    fa = setup_repo_import()
+    part = new_part()
+    dtname = task["dtype"]
+    t = DT[dtname]
+    f = FMT[dtname]
+    A = np.array(task["bits"], dtype=np.uint64).astype(f["ui"]).view(t)
+    fpa, ap, u = fa.floating_point_algorithms, fa.apmath, fa.utils
+    X2, Y2 = np.repeat(A, len(A)), np.tile(A, len(A))
+    for name, (nargs, mk) in ROUTE_VARIANTS.items():
+        body = mk(fpa, ap)
+        args = (A,) if nargs == 1 else (X2, Y2)
+        try:
+            with np.errstate(all="ignore"):
+                ref = [np.asarray(o) for o in body(u.NumpyContext(t), *args)]
+        except Exception as e:
+            bump(part, f"array_route_raises:{name}:{type(e).__name__}")
+            continue
+        # (a) traced
+        fT = traced_variant(fa, name, dtname)
+        if isinstance(fT, Exception):
+            bump(part, f"traced_route_unavailable:{name}:{type(fT).__name__}")
+        else:
+            part["evaluations"] += len(args[0])
+            try:
+                with np.errstate(all="ignore"):
+                    got = [np.asarray(o) for o in fT(*args)]
+                bad = None
+                for k_, (g_, r_) in enumerate(zip(got, ref)):
+                    g_, r_ = np.broadcast_arrays(g_, r_)
+                    neq = ~((g_ == r_) | (np.isnan(g_) & np.isnan(r_))) | (np.signbit(g_) != np.signbit(r_)) & (g_ == 0) | (g_.dtype != r_.dtype)
+                    if np.any(neq):
+                        bad = (k_, int(np.flatnonzero(neq)[0]))
+                        break
+                if bad is not None:
+                    k_, i = bad
+                    pt = [a[i] for a in args]
+                    add_violation(part, f"{name}:{dtname}:traced-route-differs-from-NumpyContext-route", f"{name}{tuple(map(repr, pt))}: output {k_} of the traced+emitted NumPy function = {np.broadcast_to(got[k_], args[0].shape)[i]!r}, NumpyContext arrays give {np.broadcast_to(ref[k_], args[0].shape)[i]!r}", {"kind": "route", "variant": name, "dtype": dtname, "route": "traced", "x": float(pt[0]).hex(), "y": float(pt[1]).hex() if nargs == 2 else None})
+                else:
+                    part["nontrivial"] += len(args[0])
+            except Exception as e:
+                add_violation(part, f"{name}:{dtname}:traced-route-raises", f"emitted NumPy code of {name} raised {type(e).__name__}: {e}", {"kind": "route", "variant": name, "dtype": dtname, "route": "traced", "x": float(A[0]).hex(), "y": float(A[0]).hex() if nargs == 2 else None})
+        # (b) scalars, every 7th point
+        idx = range(0, len(args[0]), 7)
+        ctxs = u.NumpyContext(t)
+        for i in idx:
+            part["evaluations"] += 1
+            try:
+                with np.errstate(all="ignore"):
+                    got = body(ctxs, *[a[i] for a in args])
+            except Exception as e:
+                add_violation(part, f"{name}:{dtname}:scalar-route-raises", f"{name} on NumPy scalars raised {type(e).__name__}: {e}", {"kind": "route", "variant": name, "dtype": dtname, "route": "scalar", "x": float(args[0][i]).hex(), "y": float(args[1][i]).hex() if nargs == 2 else None})
+                break
+            ok = all(np.asarray(g_).dtype == np.dtype(t) and (np.asarray(g_).tobytes() == np.broadcast_to(r_, args[0].shape)[i].tobytes() or (np.isnan(g_) and np.isnan(np.broadcast_to(r_, args[0].shape)[i]))) for g_, r_ in zip(got, ref))
+            if not ok:
+                add_violation(part, f"{name}:{dtname}:scalar-route-differs-from-array-route", f"{name}{tuple(repr(a[i]) for a in args)} on scalars = {got}, on arrays {[np.broadcast_to(r_, args[0].shape)[i] for r_ in ref]}", {"kind": "route", "variant": name, "dtype": dtname, "route": "scalar", "x": float(args[0][i]).hex(), "y": float(args[1][i]).hex() if nargs == 2 else None})
+                break
+    part["samples"].append({"routes": dtname, "points": int(len(A))})
+    return part
+
+
+def w_shared_context(task):
+    """one NumpyContext used for several float types in sequence: results equal to those of a fresh context"""
+    fa = setup_repo_import()
+    part = new_part()
+    fpa, ap, u = fa.floating_point_algorithms, fa.apmath, fa.utils
+    pts = [0.1, 1.0, -3.0, 1000.5, -0.00123, 65000.0, 1.0009765625, 2.5e-5]
+    import itertools
+
+    for name, (nargs, mk) in ROUTE_VARIANTS.items():
+        body = mk(fpa, ap)
+        for d0 in ("float16", "float32", "float64"):
+            for seq in itertools.product(("float16", "float32", "float64"), repeat=task["length"]):
+                ctx = u.NumpyContext(DT[d0])
+                for step, dtname in enumerate(seq):
+                    t = DT[dtname]
+                    xs = np.array(pts, dtype=t)
+                    args = (xs,) if nargs == 1 else (xs, xs[::-1].copy())
+                    part["evaluations"] += 1
+                    try:
+                        with np.errstate(all="ignore"):
+                            got = [np.asarray(o) for o in body(ctx, *args)]
+                            ref = [np.asarray(o) for o in body(u.NumpyContext(DT[d0]), *args)]
+                    except Exception as e:
+                        bump(part, f"shared_context_raises:{type(e).__name__}")
+                        break
+                    if step:
+                        part["nontrivial"] += 1
+                    if not all(g_.dtype == r_.dtype and g_.tobytes() == r_.tobytes() for g_, r_ in zip(got, ref)):
+                        add_violation(part, f"{name}:shared-context:{dtname}-after-{'+'.join(seq[:step]) or 'nothing'}:differs-from-fresh-context", f"NumpyContext({d0}) used for {seq[:step + 1]}: {name} on {dtname} gives {got} but a fresh context {ref}", {"kind": "shared", "variant": name, "d0": d0, "seq": list(seq)})
+                        break
+    part["samples"].append({"shared_context": "all dtype sequences", "length": task["length"]})
+    return part
+
+
+
 def run(run):
     thorough = run.tier == "thorough"
     v = finite16()
@@ -533,10 +689,21 @@ def run(run):
             if b[i::nsh]:
                 tasks.append(dict(dtype=dtname, xbits=b[i::nsh], seed=run.seed))
     run.map(MOD, "w_struct", tasks)
+    # routes and shared contexts
+    rt = []
+    A16 = alphabet16(160 if not thorough else 400, run.seed)
+    rt.append(dict(dtype="float16", bits=[int(b) for b in A16.view(np.uint16)]))
+    for dtname in ("float32", "float64"):
+        lat = lattice.binade_lattice(DT[dtname], mantissas=3, estride=(8 if dtname == "float32" else 64) if not thorough else (3 if dtname == "float32" else 24), ephase=run.seed % 3, seed=run.seed)
+        rt.append(dict(dtype=dtname, bits=[int(x) for x in lat.view(FMT[dtname]["ui"]).astype(np.uint64)]))
+    run.map(MOD, "w_routes", rt)
+    run.map(MOD, "w_shared_context", [dict(length=2), dict(length=3)] if thorough else [dict(length=2)])
     run.rule = (
         ("all ordered pairs of finite float16 values" if thorough else f"all ordered pairs of a {len(A)}-value float16 sub-alphabet (every ~15th pattern by seed, all powers of two +-1 ULP, specials)")
         + " for 13 2Sum/Fast2Sum variants and 9 Dekker variants (fpa, apmath, utils, algorithms.py copies); every finite float16 through 7 splitter variants and "
         "the tripleword splitter; float32/float64: binade x mantissa lattice for x, y = +-2^(e_x+D)*m' for every D in [-p-3,p+3] x 6 mantissas; "
+        "12 fpa/apmath variants through two more routes (traced+emitted NumPy function; NumPy scalars) bit-compared with the array route on all pairs of a small alphabet; "
+        "all dtype sequences on one shared NumpyContext compared with fresh contexts; "
         "non-trivial = in-domain pairs whose sum/product is inexact (non-zero error term)"
     )
     run.exhaustive = True
@@ -547,8 +714,16 @@ def run(run):
 def replay(case):
     fa = setup_repo_import()
     part = new_part()
+    if case.get("kind") == "shared":
+        p2 = w_shared_context(dict(length=len(case["seq"])))
+        return [(v["sig"], v["msg"]) for v in p2["violations"] if v["case"].get("variant") == case["variant"]]
     dtname = case["dtype"]
     t = DT[dtname]
+    if case.get("kind") == "route":
+        pts = [float.fromhex(case["x"])] + ([float.fromhex(case["y"])] if case.get("y") else [])
+        b = np.unique(np.array(pts + [1.0], dtype=t).view(FMT[dtname]["ui"])).astype(np.uint64)
+        p2 = w_routes(dict(dtype=dtname, bits=[int(x) for x in b]))
+        return [(v["sig"], v["msg"]) for v in p2["violations"] if v["case"].get("variant") == case["variant"]]
     X = np.array([float.fromhex(case["x"])], dtype=t)
     name = case["variant"]
     if case["y"] is None:
